@@ -11,6 +11,12 @@ use crate::{Error, Result};
 /// - For single compression: the compression method byte followed by compressed data
 /// - For multiple compression: the combined flags byte followed by compressed data
 pub fn compress(data: &[u8], method: u8) -> Result<Vec<u8>> {
+    // A block the PKWare encoder cannot handle is stored uncompressed, like any
+    // block that compression does not shrink
+    if method == flags::PKWARE && data.len() > algorithms::pkware::MAX_INPUT {
+        return Ok(data.to_vec());
+    }
+
     // Check if compression actually reduces size
     let compressed = compress_internal(data, method)?;
 
